@@ -1590,10 +1590,23 @@ _vbi_cache_put_page		(vbi_cache *		ca,
 		subno_mask = 0x000F;
 	}
 
-	old_cp = page_by_pgno (ca, cn,
-			       cp->pgno,
-			       subno & subno_mask,
-			       subno_mask);
+	old_cp = NULL;
+
+	if (0 == subno_mask) {
+		/* One version. When other versions are cached as well
+		   (subpages, other subcodes) replace our own previous
+		   copy, not one of them, or another copy is left behind
+		   by each retransmission. */
+		old_cp = page_by_pgno (ca, cn, cp->pgno, subno, -1);
+	}
+
+	if (NULL == old_cp) {
+		old_cp = page_by_pgno (ca, cn,
+				       cp->pgno,
+				       subno & subno_mask,
+				       subno_mask);
+	}
+
 	if (NULL != old_cp) {
 		if (CACHE_DEBUG) {
 			fputs ("is cached ", stderr);
